@@ -101,10 +101,6 @@ func genCase(r *rand.Rand, thorough bool) *ipamkit.ConcCase {
 	return cc
 }
 
-type tally struct {
-	c *harness.Case
-}
-
 func report(c *harness.Case, cc *ipamkit.ConcCase, o *ipamkit.RunOutcome, what string) bool {
 	if o.SetupErr != nil {
 		c.Inconclusive("setup: " + o.SetupErr.Error())
@@ -151,18 +147,27 @@ func report(c *harness.Case, cc *ipamkit.ConcCase, o *ipamkit.RunOutcome, what s
 	if len(o.Violations) == 0 {
 		return true
 	}
-	wit := o.Witness(cc)
-	wit["run"] = what
-	seen := map[string]bool{}
+	// One report per key and case; keep exploring (a listed finding must not hide the rest).
+	var wit map[string]any
 	for _, v := range o.Violations {
-		if seen[v.Key] {
+		if reported[c][v.Key] {
 			continue
 		}
-		seen[v.Key] = true
+		if reported[c] == nil {
+			reported = map[*harness.Case]map[string]bool{c: {}}
+		}
+		reported[c][v.Key] = true
+		if wit == nil {
+			wit = o.Witness(cc)
+			wit["run"] = what
+		}
 		c.Violationf(v.Key, wit, "%s [%s]", v.Msg, what)
 	}
-	return false
+	return len(reported[c]) < 4
 }
+
+// reported: violation keys already reported for the case in progress (one case at a time per process).
+var reported = map[*harness.Case]map[string]bool{}
 
 func run(c *harness.Case) {
 	thorough := c.Thorough()
